@@ -276,11 +276,6 @@ Qed.
 (* ------------------------------------------------------------------ lexer *)
 From Coq Require Import DecimalString Decimal DecimalN DecimalPos.
 
-Fixpoint all_chars (p : ascii -> bool) (s : string) : bool :=
-  match s with EmptyString => true | String c r => p c && all_chars p r end.
-Definition ident_ok (s : string) : bool :=
-  match s with EmptyString => false | String c r => is_alpha c && all_chars is_alnum r end.
-
 Fixpoint strip (ts : list token) : list token :=
   match ts with [] => [] | TSp :: r => strip r | t :: r => t :: strip r end.
 
@@ -326,19 +321,19 @@ Proof.
 Qed.
 
 (* the lexeme still open after a token *)
-Inductive pend := PNone | PNum (n : N) | PName (s : string) | PStar.
+Inductive pend := QNone | QNum (n : N) | QName (s : string) | QStar.
 Definition pend_of (t : token) : pend :=
-  match t with TNum n => PNum n | TName s => PName s | TStar => PStar | _ => PNone end.
+  match t with TNum n => QNum n | TName s => QName s | TStar => QStar | _ => QNone end.
 Definition st_of (p : pend) : lstate :=
-  match p with PNone => LNone | PNum n => LNum (N_to_string n) | PName s => LName s | PStar => LStar end.
+  match p with QNone => LNone | QNum n => LNum (N_to_string n) | QName s => LName s | QStar => LStar end.
 Definition ptoks (p : pend) : list token :=
-  match p with PNone => [] | PNum n => [TNum n] | PName s => [TName s] | PStar => [TStar] end.
+  match p with QNone => [] | QNum n => [TNum n] | QName s => [TName s] | QStar => [TStar] end.
 
 (* which token may follow which without changing the token sequence *)
 Definition adj1 (p : pend) (t : token) : bool :=
   match p, t with
-  | (PNum _ | PName _), (TNum _ | TName _) => false
-  | PStar, (TStar | TPow) => false
+  | (QNum _ | QName _), (TNum _ | TName _) => false
+  | QStar, (TStar | TPow) => false
   | _, _ => true
   end.
 Definition tok_ok (t : token) : bool := match t with TName s => ident_ok s | _ => true end.
@@ -360,6 +355,15 @@ Proof.
   destruct (lex_go LNone r); reflexivity.
 Qed.
 
+Lemma digit_not_alpha c : is_digit c = true -> is_alpha c = false.
+Proof. destruct c as [[] [] [] [] [] [] [] []]; vm_compute; intros; congruence. Qed.
+Lemma alpha_not_digit c : is_alpha c = true -> is_digit c = false.
+Proof. destruct c as [[] [] [] [] [] [] [] []]; vm_compute; intros; congruence. Qed.
+Lemma digit_not_star c : is_digit c = true -> Ascii.eqb c "*" = false.
+Proof. destruct c as [[] [] [] [] [] [] [] []]; vm_compute; intros; congruence. Qed.
+Lemma alpha_not_star c : is_alpha c = true -> Ascii.eqb c "*" = false.
+Proof. destruct c as [[] [] [] [] [] [] [] []]; vm_compute; intros; congruence. Qed.
+
 Theorem lex_render : forall ts p, adj p ts = true ->
   lex_go (st_of p) (render ts) = Some (ptoks p ++ strip ts).
 Proof.
@@ -370,39 +374,28 @@ Proof.
     destruct t; simpl render_tok; simpl pend_of in IH; simpl st_of in IH; simpl ptoks in IH.
     + (* number *)
       destruct (N_to_string_digits n) as (c & s & E & Hc & Hs).
-      assert (Hna : is_alpha c = false).
-      { revert Hc. unfold is_digit, is_alpha. destruct (nat_of_ascii c) as [|k] eqn:En; simpl; auto.
-        intros Hc. apply andb_true_iff in Hc. destruct Hc as [A B].
-        apply Nat.leb_le in A, B. repeat (destruct k as [|k]; [simpl; try reflexivity; try lia|]); simpl; lia. }
+      pose proof (digit_not_alpha c Hc) as Hna.
       rewrite E in *. destruct p; simpl in H1; try discriminate; simpl st_of; simpl lex_go; rewrite Hc.
       * rewrite (lex_digits s Hs). simpl append. rewrite IH. reflexivity.
-      * assert (Hst : Ascii.eqb c "*" = false).
-        { destruct (Ascii.eqb c "*") eqn:Es; auto. apply Ascii.eqb_eq in Es. subst c. discriminate. }
-        rewrite Hst. rewrite (lex_digits s Hs). simpl append. rewrite IH. reflexivity.
+      * rewrite (digit_not_star c Hc). rewrite (lex_digits s Hs). simpl append. rewrite IH. reflexivity.
     + (* name *)
       simpl in Hok. destruct s as [|c s]; [discriminate|]. simpl in Hok. apply andb_true_iff in Hok. destruct Hok as [Hc Hs].
-      assert (Hnd : is_digit c = false).
-      { revert Hc. unfold is_digit, is_alpha. destruct (nat_of_ascii c) as [|k] eqn:En; simpl; auto.
-        intros Hc. destruct ((48 <=? S k)%nat && (S k <=? 57)%nat) eqn:Ed; auto.
-        apply andb_true_iff in Ed. destruct Ed as [A B]. apply Nat.leb_le in A, B.
-        repeat (destruct k as [|k]; [simpl in *; try discriminate; try lia|]). lia. }
+      pose proof (alpha_not_digit c Hc) as Hnd.
       destruct p; simpl in H1; try discriminate; simpl st_of; simpl append; simpl lex_go; rewrite Hnd, Hc.
       * rewrite (lex_alnums s Hs). simpl append. rewrite IH. reflexivity.
-      * assert (Hst : Ascii.eqb c "*" = false).
-        { destruct (Ascii.eqb c "*") eqn:Es; auto. apply Ascii.eqb_eq in Es. subst c. discriminate. }
-        rewrite Hst. rewrite (lex_alnums s Hs). simpl append. rewrite IH. reflexivity.
+      * rewrite (alpha_not_star c Hc). rewrite (lex_alnums s Hs). simpl append. rewrite IH. reflexivity.
     + simpl append. rewrite (lex_special p "+" _ [TPlus]) by reflexivity. rewrite IH. destruct p; reflexivity.
     + simpl append. rewrite (lex_special p "-" _ [TMinus]) by reflexivity. rewrite IH. destruct p; reflexivity.
     + (* star *)
       simpl append. destruct p; simpl in H1; try discriminate; simpl st_of; simpl lex_go.
       * rewrite IH. reflexivity.
-      * rewrite flush_num. rewrite IH. reflexivity.
+      * rewrite num_roundtrip. rewrite IH. reflexivity.
       * unfold is_alnum. simpl. rewrite IH. reflexivity.
     + simpl append. rewrite (lex_special p "/" _ [TSlash]) by reflexivity. rewrite IH. destruct p; reflexivity.
     + (* ** *)
       simpl append. destruct p; simpl in H1; try discriminate; simpl st_of; simpl lex_go.
       * rewrite IH. reflexivity.
-      * rewrite flush_num. rewrite IH. reflexivity.
+      * rewrite num_roundtrip. rewrite IH. reflexivity.
       * unfold is_alnum. simpl. rewrite IH. reflexivity.
     + simpl append. rewrite (lex_special p "(" _ [TLp]) by reflexivity. rewrite IH. destruct p; reflexivity.
     + simpl append. rewrite (lex_special p ")" _ [TRp]) by reflexivity. rewrite IH. destruct p; reflexivity.
